@@ -1,10 +1,10 @@
 (* C16 — tasks are offered and executed only where their requirements hold.
-   Proofs: proofs/TasksFacts.v. Process spawning, signals and workdir are abstracted by the
+   Proofs: proofs/TasksFacts.v, proofs/TasksMore.v. Process spawning, signals and workdir are abstracted by the
    oracles ninja_ok / task_ok. *)
 From Coq Require Import Ascii String List NArith Arith Bool.
 Import ListNotations.
 Require Import Laze.model.Base Laze.model.Env Laze.model.Ninja Laze.model.Ctx Laze.model.Resolver
-        Laze.model.Imports Laze.model.Generate Laze.model.Tasks Laze.proofs.TasksFacts.
+        Laze.model.Imports Laze.model.Generate Laze.model.Tasks Laze.model.Expand Laze.model.Allow Laze.proofs.TasksFacts Laze.proofs.TasksMore Laze.proofs.TaskEnv.
 Open Scope list_scope.
 
 (* runnable iff required_vars are set in the build's environment and required_modules selected *)
@@ -45,3 +45,66 @@ Theorem C16_keep_going_zero : forall task_ok targets e,
   fst (run_tasks task_ok 0 targets e) = map act_of targets.
 Proof. exact run_tasks_all. Qed.
 Print Assumptions C16_keep_going_zero.
+
+(* the app is built first unless `build: false`: ninja is invoked only when some runnable build's task
+   wants its app built and -G was not given, with exactly the outputs of those builds as targets
+   (-j/-v passed through, ninja's own keep-going left alone); it comes before every task; if it
+   fails, no task runs and the exit status is 1 *)
+Theorem C16_build_first : forall ninja_ok task_ok builds file c name,
+  mc_task c = Some name ->
+  let o := main_after_generate ninja_ok task_ok builds file c in
+  let argv := task_argv builds file c name in
+  (forall a, In (ANinja a) (o_actions o) -> a = argv /\ prebuild_targets builds c name <> [] /\ mc_generate_only c = false) /\
+  (runnable_of builds c name <> [] -> (length (matching_of builds c name) <= 1 \/ mc_multiple c = true) ->
+   prebuild_targets builds c name <> [] -> mc_generate_only c = false ->
+   exists acts, o_actions o = ANinja argv :: acts /\ (ninja_ok argv = false -> acts = [] /\ o_exit o = 1)).
+Proof. exact task_build_first. Qed.
+Print Assumptions C16_build_first.
+
+(* laze exits non-zero iff a build or a task failed (or nothing could be run): the exit status is 0
+   or 1, and it is 0 exactly when there is a runnable match, no refusal for lack of
+   --multiple-tasks, every ninja invocation succeeded and every executed task succeeded *)
+Theorem C16_exit_status : forall ninja_ok task_ok builds file c name,
+  mc_task c = Some name ->
+  let o := main_after_generate ninja_ok task_ok builds file c in
+  (o_exit o = 0 \/ o_exit o = 1) /\
+  (o_exit o = 0 <->
+     runnable_of builds c name <> [] /\
+     (length (matching_of builds c name) <= 1 \/ mc_multiple c = true) /\
+     (forall a, In (ANinja a) (o_actions o) -> ninja_ok a = true) /\
+     (forall b a, In (ATask b a) (o_actions o) -> task_ok b a = true)).
+Proof. exact task_exit_status. Qed.
+Print Assumptions C16_exit_status.
+
+(* the task's commands see the build's variables and exports: every task a configured build offers is a
+   declaration of a context on the builder's chain or of a selected module; a runnable one is that
+   declaration with its commands, exports and workdir expanded in the BUILD's flattened global
+   environment plus ${out} = the build's output file; an unrunnable one carries the failed requirement *)
+Theorem C16_task_sees_build_env : forall H EV b le builder binary select disable cli_env info entries,
+  configure_build H EV b le builder binary select disable cli_env = Ok (Built info entries) ->
+  exists bctx relpath rst gflat,
+    bag_get b builder = Some bctx /\ m_relpath binary = Some relpath /\
+    bi_modules info = map m_name (sel rst) /\
+    flatten_with_opts_option (c_var_options bctx)
+      (global_env b le builder bctx binary (sel rst) relpath cli_env) = Ok gflat /\
+    forall name v, alookup name (bi_tasks info) = Some v ->
+      exists t0, task_source b builder (sel rst) name t0 /\
+        match v with
+        | inl t' => task_check (ainsert (S_ "out") (bi_out info) gflat) (sel rst) t0 = None /\
+                    task_eval EV (ainsert (S_ "out") (bi_out info) gflat) t0 = Ok t'
+        | inr e => task_check (ainsert (S_ "out") (bi_out info) gflat) (sel rst) t0 = Some e
+        end.
+Proof. exact configured_build_tasks. Qed.
+Print Assumptions C16_task_sees_build_env.
+
+Theorem C16_task_eval_spec : forall EV flat t t', task_eval EV flat t = Ok t' ->
+  rmapM (expand_eval EV flat PEmpty) (t_cmd t) = Ok (t_cmd t') /\
+  match t_export t with
+  | Some l => exists l', rmapM (apply_export EV flat) l = Ok l' /\ t_export t' = Some l'
+  | None => t_export t' = None end /\
+  match t_workdir t with
+  | Some w => exists w', expand_eval EV flat PEmpty w = Ok w' /\ t_workdir t' = Some w'
+  | None => t_workdir t' = None end /\
+  t_build t' = t_build t /\ t_required_vars t' = t_required_vars t /\ t_required_modules t' = t_required_modules t.
+Proof. exact task_eval_spec. Qed.
+Print Assumptions C16_task_eval_spec.
